@@ -1008,7 +1008,22 @@ func genAlgebra(r *rand.Rand) logqIn {
 	} else {
 		a, b := genPred(r, 1), genPred(r, 1)
 		par := func(p *predIn) *predIn { return &predIn{T: "paren", A: p} }
-		if r.Intn(3) == 0 {
+		if r.Intn(6) == 0 {
+			// two typed predicates on two labels, of which the first often cannot be parsed (the record is kept and flagged)
+			// while the second parses and decides: an earlier error does not excuse a later comparison
+			base = []stageIn{{T: "logfmt"}}
+			for i := range in.Recs {
+				nv, dv := pick(r, []string{"5", "x", "12", "abc", "1e3"}), pick(r, []string{"1s", "2m", "zzz", "500ms"})
+				in.Recs[i].Line, in.Recs[i].Doc = B("n="+nv+" d="+dv), [][2][]int{{B("n"), B(nv)}, {B("d"), B(dv)}}
+			}
+			ops := []string{"eq", "neq", "gt", "gte", "lt", "lte"}
+			nl, dl := pick(r, []string{"5", "10", "100"}), pick(r, []string{"1s", "90s", "1m"})
+			a = &predIn{T: "num", Label: B("n"), Op: ops[r.Intn(6)], Lit: B(nl), Val: ratOfDecimal(nl)}
+			b = &predIn{T: "dur", Label: B("d"), Op: ops[r.Intn(6)], Lit: B(dl), Val: ratOfDur(dl)}
+			if r.Intn(2) == 0 {
+				a, b = b, a
+			}
+		} else if r.Intn(3) == 0 {
 			// two matchers on ONE label, the left one with an inline flag that must stay inside its own expression
 			// (?i) / (?s) do not extend over a following alternative of another matcher), written without parentheses
 			for i := range in.Recs {
